@@ -3,7 +3,7 @@ CONSTANTS
   O = 20
   BLow = 2
   BHigh = 10
-  MaxLen = 7
+  MaxLen = 6
   NPorts = {0, 1, 2}
   Classes = {"discover", "object", "number", "string", "list", "null", "bool", "badutf8", "badjson", "empty", "oversized", "discover_extra", "oversized_discover"}
   Loose = {"discover_extra", "oversized_discover"}
